@@ -124,6 +124,21 @@ where T: LLLRing + Bridge, for<'x> &'x T: LLLRingOps<T>, T::O: OEuc {
         let (u, _) = rand_unimodular::<T>(rng, m, 3 * m, if unbounded { Mag::Small } else { Mag::Tiny });
         ao = u.mul(&ao);
     }
+    // near-tie family (integers only, unbounded types): two or three rows whose Gram-Schmidt coefficient is a hair
+    // beside k + 1/2 while the Gram determinants are around 2^40 .. 2^62 — the regime where any rounding shortcut
+    // in the size reduction shows
+    if unbounded && tname == "BigInt" && rng.chance(1, 6) {
+        let e = rng.urange(20, 31) as i64;
+        let k = rng.range(-2, 2);
+        let p2 = 1i64 << e;
+        let s1 = rng.range(-2, 2); let s2 = rng.range(-2, 2);
+        let mut rows: Vec<Vec<i64>> = vec![vec![p2 + rng.range(-1, 1), s1, 0], vec![(2 * k + 1) * (p2 / 2) + rng.range(-1, 1), s2, p2]];
+        if rng.chance(1, 2) { rows.push(vec![rng.range(-3, 3), p2 / 2 + rng.range(-1, 1), (2 * rng.range(-1, 1) + 1) * (p2 / 2)]) }
+        let mm = rows.len();
+        ao = OMat::<T::O>::from_fn(mm, 3, |i, j| T::O::from_i64(rows[i][j]));
+        ctx.count("lll_near_tie_family", 1);
+    }
+    let (m, n) = (ao.m, ao.n);
     if ao.max_bits() < 800 && ao.rank() != m { ctx.count("lll_skipped_dependent_rows", 1); return }
     let with_trans = rng.chance(3, 4);
     let Some(a) = o_to_mat::<T>(&ao) else { ctx.inconclusive("generator_unrepresentable"); return };
